@@ -1,3 +1,3 @@
 From Coq Require Import List NArith ZArith ExtrOcamlBasic.
 From WV Require Import Model.ChanWake Proof.ChanWakeInv.
-Extraction "model.ml" step init quiescent c05_ok in_kf_class io_enabled w_enabled is_env no_pending_output no_unserved_request no_producer_parked closing_closed parked_after_close inv_ok quiescent_parked quiescent_app app_ok N.add N.mul.
+Extraction "model.ml" step init quiescent c05_ok io_enabled w_enabled is_env no_pending_output no_unserved_request no_producer_parked closing_closed parked_after_close inv_ok quiescent_parked quiescent_app app_ok N.add N.mul.
